@@ -11,6 +11,9 @@
 //	empty         exit 0 without printing anything (not even shellcheck's "[]")
 //	slow=<ms>     sleep before answering
 //	noread        exit(0) without reading stdin (shellcheck prints "[]")
+//	msg=<k>       the issues (at least one) carry entry k (modulo the table size) of nastyMessages
+//	              instead of "fake issue": line breaks, control characters, ANSI escapes, ...
+//	              (shellcheck: JSON-escaped inside "message"; pyflakes: written raw into the line)
 //
 // Log (FAKETOOL_LOG, O_APPEND, one write per record):
 //
@@ -39,6 +42,53 @@ func logRec(format string, args ...interface{}) {
 		return
 	}
 	logf.WriteString(fmt.Sprintf(format, args...) + "\n")
+}
+
+// nastyMessages is the table selected by msg=<k> (used by C16). Entries are only ever appended.
+var nastyMessages = []string{
+	"plain message",
+	"line\nfeed",
+	"carriage\rreturn",
+	"cr\r\nlf",
+	"nul\x00byte",
+	"\x1b[31mred\x1b[0m",
+	"next\u0085line",
+	"line\u2028separator",
+	":1:2: x [y]",
+	"%s %d %!v %",
+	"long " + strings.Repeat("x", 70000),
+	"invalid\xffutf8\xc3",
+	"json \" quote \\ backslash \\n \\u0041 / \b \f",
+	"ends with line feed\n",
+	"ends with escape \x1b[0m",
+	"tab\there",
+	" [x]",
+	"<stdin>:9:9: nested header",
+	"vt\vff\fbel\adel\x7f",
+	"日本語 ａｂ 🙂 é",
+	"\n",
+	"w.yml:3:4: m [kind]\r",
+}
+
+// jsonString encodes s as a JSON string; bytes >= 0x80 (also invalid UTF-8) are written as they are.
+func jsonString(s string) string {
+	var b strings.Builder
+	b.WriteByte('"')
+	for i := 0; i < len(s); i++ {
+		c := s[i]
+		switch {
+		case c == '"':
+			b.WriteString(`\"`)
+		case c == '\\':
+			b.WriteString(`\\`)
+		case c < 0x20:
+			fmt.Fprintf(&b, `\u%04x`, c)
+		default:
+			b.WriteByte(c)
+		}
+	}
+	b.WriteByte('"')
+	return b.String()
 }
 
 var markRe = regexp.MustCompile(`FT:([a-z0-9=,]+)`)
@@ -80,6 +130,7 @@ func main() {
 		spec = string(m[1])
 	}
 	issues, exit, kill, garbage, killout, trailing, empty := 0, 0, false, false, false, false, false
+	msg := -1
 	for _, it := range strings.Split(spec, ",") {
 		kv := strings.SplitN(it, "=", 2)
 		val := 0
@@ -89,6 +140,10 @@ func main() {
 		switch kv[0] {
 		case "issues":
 			issues = val
+		case "msg":
+			if val >= 0 {
+				msg = val % len(nastyMessages)
+			}
 		case "exit":
 			exit = val
 		case "kill":
@@ -104,6 +159,9 @@ func main() {
 		case "slow":
 			time.Sleep(time.Duration(val) * time.Millisecond)
 		}
+	}
+	if msg >= 0 && issues == 0 {
+		issues = 1
 	}
 	logRec("end %d %d %s", pid, time.Now().UnixNano(), spec)
 	switch {
@@ -135,6 +193,10 @@ func main() {
 			if i > 0 {
 				sb.WriteString(",")
 			}
+			if msg >= 0 {
+				fmt.Fprintf(&sb, `{"file":"-","line":%d,"endLine":%d,"column":%d,"endColumn":%d,"level":"warning","code":%d,"message":%s,"fix":null}`, i+2, i+2, i+1, i+3, 2000+i, jsonString(nastyMessages[msg]))
+				continue
+			}
 			fmt.Fprintf(&sb, `{"file":"-","line":%d,"endLine":%d,"column":%d,"endColumn":%d,"level":"warning","code":%d,"message":"fake issue %d (shell=%s).","fix":null}`, i+2, i+2, i+1, i+3, 2000+i, i, shell)
 		}
 		sb.WriteString("]")
@@ -147,6 +209,10 @@ func main() {
 		}
 	default: // pyflakes
 		for i := 0; i < issues; i++ {
+			if msg >= 0 {
+				fmt.Printf("<stdin>:%d:%d: %s\n", i+1, i+1, nastyMessages[msg])
+				continue
+			}
 			fmt.Printf("<stdin>:%d:%d: fake issue %d\n", i+1, i+1, i)
 		}
 		if issues > 0 {
